@@ -543,6 +543,29 @@ def gen_roundtrip_programs(r, n, big=0.03):
     return progs
 
 
+def gen_rewrite_same_programs():
+    """The same bytes stored twice through every one-shot and streamed entry point, small and large: the second write
+    finds the stored copy and must leave it alone (for the system-call skeleton leg: no call of the second write opens,
+    truncates or writes the file at the content address - the copy is published by a rename of a complete temp file or
+    not at all)."""
+    progs = []
+    for size in (0, 5, 4096, 4097, 70000):
+        d = bytes((i * 7 + size) % 251 for i in range(size))
+        for fl in "sa":
+            for how in ("write", "write_hash", "stream"):
+                ids = G.Ids()
+                key = b"again-%d" % size
+                def w():
+                    if how == "write":
+                        return [w_oneshot(fl, "sha256", key, d)]
+                    if how == "write_hash":
+                        return [f"write_hash {fl} c0 sha256 {hx(d)}"]
+                    return w_stream(ids, fl, key, d, [d[:len(d) // 2], d[len(d) // 2:]], algo="sha256")[1]
+                ops = w() + w() + [f"read_hash {fl} c0 {sri_tok('sha256', d)}"]
+                progs.append(Program(f"again-{size}-{fl}-{how}", ops, tags={"variety": ("again", size, fl, how)}))
+    return progs
+
+
 def gen_coexist_programs(r, n):
     """C16: the SAME bytes under several algorithms, through mixed entry points and flavours; every
     address must be the digest under the algorithm asked for (whatever the cache already holds), all
